@@ -96,6 +96,10 @@ class PathMgr:
         self.pos = 0
         self.pc: List[Any] = []
         self.pc_axiom: List[bool] = []
+        self.alloc_cls: Dict[int, ClassInfo] = {}
+        self.bounded: set = set()
+        self.old_terms: set = set()
+        self.kind_hint: Dict[int, str] = {}
         self.sub_depth = 0
         self.st = State()
         self.old: Optional[State] = None
@@ -253,7 +257,7 @@ class PathMgr:
         self._add_pc(c, axiom=True)
 
     # ------------------------------------------------------------------ sub-exploration (merging)
-    def sub_explore(self, thunk):
+    def sub_explore(self, thunk, pure: bool = False):
         """Enumerate every sub-path of thunk() from the current state and return
         [(guard, kind, value, state_after)], kind in {'ret','raise'}; the current path is left as it was,
         plus the axioms the sub-paths produced.  Used to evaluate pure spec / contract clauses into ONE
@@ -267,6 +271,8 @@ class PathMgr:
         sub_pending = [[]]
         results = []
         axioms = []
+        entry_ref = self.next_ref
+        keep_st = None
         self.sub_depth += 1
         try:
             while sub_pending:
@@ -288,6 +294,16 @@ class PathMgr:
                     self.solver.pop()
                     del self.pc[base:]
                     del self.pc_axiom[base:]
+                    if pure:
+                        # a pure clause only writes cells of objects it allocated itself: keep those stores
+                        for fld, ref, _ in self.writes[saved[12]:]:
+                            rr = smt.simp(ref)
+                            if not (z3.is_int_value(rr) and rr.as_long() >= entry_ref):
+                                from .core import Unsupported
+                                raise Unsupported(f'pure clause writes to a pre-existing object ({fld})')
+                        keep_st = self.st.snapshot()
+                        keep_st.ghost = dict(saved_st.ghost)
+                        saved_st = keep_st
                     self.st.restore(saved_st)
                     self.known_cls, self.hint_cls = dict(saved[3]), dict(saved[4])
                     self._solver_bg, self._bg_done = saved[5], set(saved[6])
@@ -307,7 +323,7 @@ class PathMgr:
         """z3 Bool: thunk() (a pure clause) evaluates to a truthy value; a raising sub-path makes the
         clause ill-defined -> Unsupported"""
         from .core import Unsupported
-        rs = self.sub_explore(thunk)
+        rs = self.sub_explore(thunk, pure=True)
         disj = []
         for guard, kind, v, _ in rs:
             if kind == 'raise':
@@ -411,6 +427,7 @@ class PathMgr:
         self._add_axiom(smt.cls_of(r) == c.cid)
         v = smt.mk_ref(r)
         self.known_cls[smt.simp(v).get_id()] = c
+        self.alloc_cls[r] = c
         return v
 
     def alloc_symbolic_class(self, cid_term):
@@ -428,6 +445,14 @@ class PathMgr:
         by this path: its id is below the allocation counter (keeps fresh objects unaliased)."""
         if smt.static_id(v) is not None:
             return
+        sv = smt.simp(v)
+        if sv.get_id() in self.bounded:
+            return
+        self.bounded.add(sv.get_id())
+        if self.next_ref == smt.FRESH_BASE or self.is_initial_heap_read(sv):
+            # inputs and whatever the entry heap references existed before the call
+            self.old_terms.add(sv.get_id())
+            self._add_axiom(z3.Implies(Val.is_ref(v), Val.r(v) < smt.FRESH_BASE))
         T, F = builtin_class('type'), builtin_class('function')
         self.use_class(T)
         self.use_class(F)
@@ -435,15 +460,47 @@ class PathMgr:
         self._add_axiom(z3.Implies(Val.is_ref(v), z3.And(r < self.next_ref, z3.Implies(
             r < 0, z3.Or(smt.cls_of(r) == T.cid, smt.cls_of(r) == F.cid)))))
 
+    def is_initial_heap_read(self, v) -> bool:
+        """v is a read of the heap as it was on entry: Select(H_x, ..) / Select(Select(H_dict, ..), ..) / nth(H_seq[..], ..)"""
+        if not z3.is_app(v):
+            return False
+        k = v.decl().kind()
+        if k == z3.Z3_OP_SELECT:
+            a = v.arg(0)
+            if z3.is_app(a) and a.decl().kind() == z3.Z3_OP_SELECT:
+                a = a.arg(0)
+            return z3.is_const(a) and a.decl().kind() == z3.Z3_OP_UNINTERPRETED and a.decl().name().startswith('H_')
+        if k == z3.Z3_OP_SEQ_NTH:
+            a = v.arg(0)
+            return z3.is_app(a) and a.decl().kind() == z3.Z3_OP_SELECT and z3.is_const(a.arg(0)) \
+                and a.arg(0).decl().name() == 'H_seq'
+        return False
+
+    def is_old(self, v) -> bool:
+        return smt.simp(v).get_id() in self.old_terms
+
+    def strip_fresh(self, arr):
+        """array as seen from a pre-existing object: stores at freshly allocated ids cannot affect it"""
+        while z3.is_app(arr) and arr.decl().kind() == z3.Z3_OP_STORE:
+            idx = arr.arg(1)
+            if z3.is_int_value(idx) and idx.as_long() >= smt.FRESH_BASE:
+                arr = arr.arg(0)
+            else:
+                break
+        return arr
+
     def class_of(self, v) -> Optional[ClassInfo]:
         """exact or upper-bound class known for a Val (no solver call)"""
         sv = smt.simp(v)
         tid = sv.get_id()
         if tid in self.known_cls:
             return self.known_cls[tid]
+        sid = smt.static_id(sv)
+        if sid is not None and sid in self.alloc_cls:
+            return self.alloc_cls[sid]
         if tid in self.hint_cls:
             return self.hint_cls[tid]
-        t = smt.tag_of(sv)
+        t = smt.tag_of(sv) or self.kind_hint.get(tid)
         if t == 'str':
             return builtin_class('str')
         if t == 'int':
